@@ -6,8 +6,13 @@ package PKG
 
 func init() {
 	vHarnesses["VerifH_C10_model"] = VerifH_C10_model
+	vHarnesses["VerifH_C10_model_volume"] = VerifH_C10_model_volume
 }
 
 func VerifH_C10_model() {
 	c10Run(vNewKV(), "model")
+}
+
+func VerifH_C10_model_volume() {
+	c10Volume(vNewKV(), "model")
 }
